@@ -26,6 +26,7 @@ import (
 )
 
 var prop = flag.String("prop", "C03", "C03|C05|C06")
+var report = flag.String("report", "", "property id to report under (default: -prop)")
 
 // ---- handler scripts ----
 
@@ -467,7 +468,10 @@ func c06Scenario(writes []int, plan []attempt, pb int) vx.Scenario {
 
 func main() {
 	flag.Parse()
-	vx.Main(&vx.Harness{Property: *prop, Name: "fwd-" + strings.ToLower(*prop), Scenarios: scenarios})
+	if *report == "" {
+		*report = *prop
+	}
+	vx.Main(&vx.Harness{Property: *report, Name: "fwd-" + strings.ToLower(*prop), Scenarios: scenarios})
 }
 
 // ---- scenario tables ----
